@@ -259,7 +259,7 @@ Proof.
     + rewrite R1. destruct (find_ms_rid_spec s rid m R1) as [Hin _]. rewrite R2, N.eqb_refl, R3.
       rewrite (set_flags_noop s m flags W Hin R5). rewrite (set_mailboxes_noop s (ms_id m) rid targets R4). auto.
   - (* MessageDeleted *) exists []. cbn [cu_tx]. rewrite R. auto.
-  - (* MessageIDChanged *) destruct R as [m [R1 R2]]. exists []. cbn [cu_tx]. rewrite R1.
+  - (* MessageIDChanged *) destruct R as [m [R1 R2]]. exists [SuMessageRid iid rid]. cbn [cu_tx]. rewrite R1.
     destruct (find_ms_id_spec s iid m R1) as [Hin Hid].
     rewrite existsb_false.
     2:{ intros x Hx. destruct (cu_rid_is (ms_rid x) rid) eqn:E; [|reflexivity]. apply rid_is_spec in E.
@@ -516,7 +516,7 @@ Proof.
         assert (existsb (fun x => (me_rid x =? rid) && negb (me_ms x =? iid) && cu_mem (me_mb x) (cu_ms_mailboxes s iid)) (st_me s) = true).
         { apply existsb_exists. exists y. split; [exact Hiny|]. apply andb_true_iff in Ey. destruct Ey as [Ey1 Ey2]. rewrite Ey1, E, Ey2. reflexivity. }
         congruence. }
-    exists []. split; [|reflexivity]. f_equal. f_equal. f_equal.
+    exists [SuMessageRid iid rid]. split; [|reflexivity]. f_equal. f_equal. f_equal.
     + apply map_idem. intros x. unfold g. destruct (ms_id x =? iid) eqn:E.
       * cbn [ms_id ms_lit ms_flags ms_del]. rewrite E. reflexivity.
       * rewrite E. reflexivity.
@@ -626,7 +626,7 @@ Qed.
 Lemma message_id_changed_effect : forall s e iid rid m, cu_find_ms_id s iid = Some m ->
   existsb (fun x => cu_rid_is (ms_rid x) rid && negb (ms_id x =? iid)) (st_ms s) = false ->
   existsb (fun x => (me_rid x =? rid) && negb (me_ms x =? iid) && cu_mem (me_mb x) (cu_ms_mailboxes s iid)) (st_me s) = false ->
-  exists s1, cu_apply s e (UMessageIDChanged iid rid) = (s1, AOk, []) /\ st_mb s1 = st_mb s /\ st_seq s1 = st_seq s /\
+  exists s1, cu_apply s e (UMessageIDChanged iid rid) = (s1, AOk, [SuMessageRid iid rid]) /\ st_mb s1 = st_mb s /\ st_seq s1 = st_seq s /\
     (exists m1, cu_find_ms_id s1 iid = Some m1 /\ ms_rid m1 = Some rid /\ ms_lit m1 = ms_lit m /\ ms_flags m1 = ms_flags m) /\
     (forall x, In x (st_me s1) -> me_ms x = iid -> me_rid x = rid) /\
     map (fun x => (me_mb x, me_uid x, me_ms x)) (st_me s1) = map (fun x => (me_mb x, me_uid x, me_ms x)) (st_me s) /\
@@ -724,4 +724,122 @@ Proof.
   { intros f. unfold g. rewrite N.eqb_refl. cbn [ms_flags]. symmetry. apply nf_mem. }
   destruct (find_ms_rid_spec s1 rid (g m) Hf1) as [Hin1 _].
   unfold cu_apply. cbn [cu_tx]. rewrite Hf1. rewrite (set_flags_noop s1 (g m) flags W1 Hin1 Hs). reflexivity.
+Qed.
+
+(* ---------- duplicate MessageMailboxesUpdated ---------- *)
+Lemma add_one_spec : forall s mb ms rid s' uid, cu_add_one s mb ms rid = Some (s', uid) ->
+  st_mb s' = st_mb s /\ st_ms s' = st_ms s /\ st_me s' = st_me s ++ [mkMe mb uid ms rid].
+Proof.
+  intros s mb ms rid s' uid H. unfold cu_add_one in H.
+  destruct (cu_in_mailbox s mb ms || cu_rid_in_mailbox s mb rid); [discriminate|].
+  injection H as H1 H2. subst s'. cbn [st_mb st_ms st_me]. rewrite H2. auto.
+Qed.
+
+Lemma add_each_spec : forall l s ms rid s' sus, cu_add_each s ms rid l = Some (s', sus) ->
+  st_mb s' = st_mb s /\ st_ms s' = st_ms s /\
+  (forall x, In x (st_me s') -> In x (st_me s) \/ (me_ms x = ms /\ me_rid x = rid /\ In (me_mb x) l)) /\
+  (forall x, In x (st_me s) -> In x (st_me s')).
+Proof.
+  induction l as [|mb t IH]; intros s ms rid s' sus H.
+  - cbn [cu_add_each] in H. injection H as J1 J2. subst s'. repeat split; auto.
+  - cbn [cu_add_each] in H. destruct (cu_add_one s mb ms rid) as [[s1 uid]|] eqn:E1; [|discriminate].
+    destruct (cu_add_each s1 ms rid t) as [[s2 r]|] eqn:E2; [|discriminate]. injection H as J1 J2. subst s'.
+    destruct (add_one_spec _ _ _ _ _ _ E1) as [A1 [A2 A3]]. destruct (IH _ _ _ _ _ E2) as [B1 [B2 [B3 B4]]].
+    split; [congruence|]. split; [congruence|]. split.
+    + intros x Hx. apply B3 in Hx. destruct Hx as [Hx|[K1 [K2 K3]]].
+      * rewrite A3 in Hx. apply in_app_or in Hx. destruct Hx as [Hx|[Hx|[]]]; [left; exact Hx|].
+        right. subst x. cbn [me_ms me_rid me_mb]. split; [reflexivity|]. split; [reflexivity|]. left. reflexivity.
+      * right. split; [exact K1|]. split; [exact K2|]. right. exact K3.
+    + intros x Hx. apply B4. rewrite A3. apply in_or_app. left. exact Hx.
+Qed.
+
+Lemma add_each_has : forall l s ms rid s' sus, cu_add_each s ms rid l = Some (s', sus) ->
+  forall mb, In mb l -> exists x, In x (st_me s') /\ me_mb x = mb /\ me_ms x = ms /\ me_rid x = rid.
+Proof.
+  induction l as [|a t IH]; intros s ms rid s' sus H mb Hin; [destruct Hin|].
+  cbn [cu_add_each] in H. destruct (cu_add_one s a ms rid) as [[s1 uid]|] eqn:E1; [|discriminate].
+  destruct (cu_add_each s1 ms rid t) as [[s2 r]|] eqn:E2; [|discriminate]. injection H as J1 J2. subst s'.
+  destruct (add_one_spec _ _ _ _ _ _ E1) as [A1 [A2 A3]]. destruct (add_each_spec _ _ _ _ _ _ E2) as [B1 [B2 [B3 B4]]].
+  destruct Hin as [Hin|Hin].
+  - subst a. exists (mkMe mb uid ms rid). split; [|auto]. apply B4. rewrite A3. apply in_or_app. right. left. reflexivity.
+  - apply (IH _ _ _ _ _ E2 mb Hin).
+Qed.
+
+Lemma mem_mailboxes : forall s ms mb, cu_mem mb (cu_ms_mailboxes s ms) = true <-> exists x, In x (st_me s) /\ me_ms x = ms /\ me_mb x = mb.
+Proof.
+  intros s ms mb. rewrite cu_mem_In. unfold cu_ms_mailboxes. rewrite in_map_iff. split.
+  - intros [x [H1 H2]]. apply filter_In in H2. destruct H2 as [H4 H3]. apply N.eqb_eq in H3. exists x. auto.
+  - intros [x [H1 [H2 H3]]]. exists x. split; [exact H3|]. apply filter_In. split; [exact H1|]. apply N.eqb_eq. exact H2.
+Qed.
+
+Lemma wf_same_tables : forall s s', cu_wf s -> st_mb s' = st_mb s -> st_ms s' = st_ms s ->
+  (forall x, In x (st_me s') -> exists m, In m (st_ms s) /\ ms_id m = me_ms x /\ ms_rid m = Some (me_rid x)) -> cu_wf s'.
+Proof.
+  intros s s' W Hmb Hms Hme. constructor.
+  - intros m Hm. rewrite Hmb in Hm. unfold cu_find_mb_id. rewrite Hmb. apply (wf_mb_id s W m Hm).
+  - intros m Hm. rewrite Hmb in Hm. unfold cu_find_mb_rid. rewrite Hmb. apply (wf_mb_rid s W m Hm).
+  - intros m Hm. rewrite Hms in Hm. unfold cu_find_ms_id. rewrite Hms. apply (wf_ms_id s W m Hm).
+  - intros m r Hm Hr. rewrite Hms in Hm. unfold cu_find_ms_rid. rewrite Hms. apply (wf_ms_rid s W m r Hm Hr).
+  - intros x Hx. rewrite Hms. apply Hme. exact Hx.
+Qed.
+
+Lemma set_mailboxes_spec : forall s m rid want s' sus, cu_wf s -> In m (st_ms s) -> ms_rid m = Some rid ->
+  cu_set_mailboxes s (ms_id m) rid want = Some (s', sus) ->
+  cu_wf s' /\ st_mb s' = st_mb s /\ st_ms s' = st_ms s /\ cu_same_set want (cu_ms_mailboxes s' (ms_id m)).
+Proof.
+  intros s m rid want s' sus W Hin Hr H. unfold cu_set_mailboxes in H.
+  set (cur := cu_ms_mailboxes s (ms_id m)) in *.
+  destruct (cu_add_each s (ms_id m) rid (filter (fun mb => negb (cu_mem mb cur)) want)) as [[s1 a]|] eqn:E1; [|discriminate].
+  pose proof (remove_all_me (ms_id m) (filter (fun mb => negb (cu_mem mb want)) cur) s1) as Hrm.
+  pose proof (remove_all_ms (ms_id m) (filter (fun mb => negb (cu_mem mb want)) cur) s1) as [Hms Hmb].
+  destruct (cu_remove_all s1 (ms_id m) (filter (fun mb => negb (cu_mem mb want)) cur)) as [s2 r] eqn:E2.
+  injection H as H1 H2. subst s'. cbn [fst] in *.
+  destruct (add_each_spec _ _ _ _ _ _ E1) as [A1 [A2 [A3 A4]]].
+  assert (Hme1 : forall x, In x (st_me s1) -> exists m0, In m0 (st_ms s) /\ ms_id m0 = me_ms x /\ ms_rid m0 = Some (me_rid x)).
+  { intros x Hx. apply A3 in Hx. destruct Hx as [Hx|[Hx1 [Hx2 _]]]; [apply (wf_me s W x Hx)|]. exists m. rewrite Hx1, Hx2. auto. }
+  split.
+  { apply (wf_same_tables s); [exact W|congruence|congruence|]. intros x Hx. apply Hrm in Hx. apply Hme1. tauto. }
+  split; [congruence|]. split; [congruence|].
+  intros mb. apply Bool.eq_true_iff_eq. rewrite (mem_mailboxes s2). split.
+  - intros Hw. destruct (cu_mem mb cur) eqn:Ec.
+    + apply mem_mailboxes in Ec. destruct Ec as [x [X1 [X2 X3]]]. exists x. split; [|auto]. apply Hrm. split; [apply A4; exact X1|].
+      intros [_ Hf]. apply filter_In in Hf. destruct Hf as [_ Hf]. rewrite X3, Hw in Hf. discriminate.
+    + assert (Hf : In mb (filter (fun mb0 => negb (cu_mem mb0 cur)) want)).
+      { apply filter_In. split; [apply cu_mem_In; exact Hw|]. rewrite Ec. reflexivity. }
+      destruct (add_each_has _ _ _ _ _ _ E1 mb Hf) as [x [X1 [X2 [X3 X4]]]]. exists x. split; [|auto]. apply Hrm. split; [exact X1|].
+      intros [_ Hg]. apply filter_In in Hg. destruct Hg as [_ Hg]. rewrite X2, Hw in Hg. discriminate.
+  - intros [x [X1 [X2 X3]]]. apply Hrm in X1. destruct X1 as [X1 Xn]. destruct (cu_mem mb want) eqn:Ew; [reflexivity|]. exfalso.
+    apply A3 in X1. destruct X1 as [X1|[_ [_ X1]]].
+    + apply Xn. split; [exact X2|]. apply filter_In. split.
+      * unfold cur, cu_ms_mailboxes. apply in_map. apply filter_In. split; [exact X1|]. apply N.eqb_eq. exact X2.
+      * rewrite X3, Ew. reflexivity.
+    + apply filter_In in X1. destruct X1 as [X1 _]. apply cu_mem_In in X1. rewrite X3, Ew in X1. discriminate.
+Qed.
+
+Theorem duplicate_mailboxes_is_noop : forall s e e' rid mboxes flags s1 sus, cu_wf s ->
+  cu_tx s e (UMessageMailboxesUpdated rid mboxes flags) = Some (s1, sus) ->
+  exists sus', cu_apply s1 e' (UMessageMailboxesUpdated rid mboxes flags) = (s1, AOk, sus') /\ filter cu_visible sus' = [].
+Proof.
+  intros s e e' rid mboxes flags s1 sus W H. cbn [cu_tx] in H.
+  destruct (cu_mem cu_recovery_rid mboxes) eqn:Er; [discriminate|].
+  destruct (cu_find_ms_rid s rid) as [m|] eqn:Ef; [|discriminate].
+  destruct (find_ms_rid_spec s rid m Ef) as [Hin Hrm].
+  destruct (cu_set_mailboxes s (ms_id m) rid (cu_translate s mboxes)) as [[sa a]|] eqn:Es; [|discriminate].
+  destruct (set_mailboxes_spec s m rid _ sa a W Hin Hrm Es) as [Wa [Amb [Ams Aset]]].
+  assert (Hina : In m (st_ms sa)) by (rewrite Ams; exact Hin).
+  destruct (cu_set_flags sa (ms_id m) flags) as [sb b] eqn:Eb. injection H as H1 H2. subst sb.
+  unfold cu_set_flags in Eb. rewrite (wf_ms_id sa Wa m Hina) in Eb. injection Eb as Eb1 Eb2.
+  set (nf := filter (fun f => cu_mem f (cu_dedup flags)) (ms_flags m) ++ filter (fun f => negb (cu_mem f (ms_flags m))) (cu_dedup flags)) in *.
+  set (g := fun x => if ms_id x =? ms_id m then mkMs (ms_id x) (ms_rid x) (ms_lit x) nf (ms_del x) else x).
+  assert (W1 : cu_wf s1) by (rewrite <- Eb1; apply wf_upd_flags; exact Wa).
+  assert (Hrid : forall x, ms_rid (g x) = ms_rid x) by (intros x; unfold g; destruct (ms_id x =? ms_id m); reflexivity).
+  assert (Hf1 : cu_find_ms_rid s1 rid = Some (g m)).
+  { rewrite <- Eb1. unfold cu_find_ms_rid, cu_upd_ms, cu_with_ms. cbn [st_ms]. fold g.
+    rewrite (find_map_pres (fun m0 => cu_rid_is (ms_rid m0) rid) g); [|intros x; rewrite Hrid; reflexivity].
+    rewrite Ams. unfold cu_find_ms_rid in Ef. rewrite Ef. reflexivity. }
+  assert (Hgid : ms_id (g m) = ms_id m) by (unfold g; rewrite N.eqb_refl; reflexivity).
+  apply restated_update_is_noop; [exact W1|]. cbn [cu_restates]. split; [exact Er|]. exists (g m). split; [exact Hf1|]. split.
+  - rewrite Hgid. intros mb. rewrite <- Eb1. unfold cu_translate, cu_ms_mailboxes, cu_upd_ms, cu_with_ms. cbn [st_mb st_me].
+    rewrite Amb. exact (Aset mb).
+  - intros f. unfold g. rewrite N.eqb_refl. cbn [ms_flags]. symmetry. apply nf_mem.
 Qed.
